@@ -67,7 +67,22 @@ pub fn check(cx: &Cx, rep: &mut Report) {
     let mut nontrivial = false;
     for af in fx.values() {
         let Some(decl) = af.decl else { continue };
-        if af.faulted || decl.entry.stream() {
+        if af.faulted {
+            continue;
+        }
+        // stream-attached actors: the library applies no handler timeout to them, whatever the builder was told, so
+        // the "no timeout configured" clause applies: nothing is ever abandoned (mailbox messages and items alike)
+        if decl.entry.stream() {
+            for t in ix.actors[&af.task].timeline.iter() {
+                if let crate::index::TL::Inv(j) = t {
+                    let inv = &ix.invs[*j];
+                    rep.premise("C11.R5.no_timeout_no_abandon");
+                    rep.premise("C11.R5.stream_attached_never_abandons");
+                    if let Some((s, _)) = inv.abandoned {
+                        rep.fail(P, "R5", format!("abandoned_on_stream_actor;{:?}", inv.mk), format!("{:?} {} on stream-attached actor tag {} was abandoned at #{s} (no handler timeout applies to stream-attached actors)", inv.mk, inv.msg, af.tag), vec![inv.i, s]);
+                    }
+                }
+            }
             continue;
         }
         let invs: Vec<&crate::index::Inv> = ix.actors[&af.task].timeline.iter().filter_map(|t| if let crate::index::TL::Inv(j) = t { Some(&ix.invs[*j]) } else { None }).collect();
@@ -81,6 +96,28 @@ pub fn check(cx: &Cx, rep: &mut Report) {
                     }
                     if need.get(&inv.msg).map(|n| *n >= 50).unwrap_or(false) && inv.out.is_some() {
                         rep.count("C11.R5.long_invocations_completed", 1);
+                    }
+                }
+            }
+            Some(0) => {
+                // boundary configuration: an invocation that needs any time at all never completes and its caller
+                // gets an error (an instantaneous one ties with the timer; with t = 0 the timer may even win before
+                // the handler is entered, so nothing else is judged here)
+                for o in ix.ops.iter().filter(|o| o.tag == af.tag && matches!(o.op, OpK::Send | OpK::Call) && o.executed()) {
+                    let Some(n) = need.get(&o.msg) else { continue };
+                    if *n == 0 {
+                        rep.count("C11.tie_d_equals_t", 1);
+                        continue;
+                    }
+                    rep.premise("C11.R2.zero_timeout_abandons");
+                    nontrivial = true;
+                    if let Some(inv) = ix.inv_of.get(&o.msg).and_then(|v| v.first()).map(|j| &ix.invs[*j]) {
+                        if let Some((s, _, _, _)) = inv.out {
+                            rep.fail(P, "R2", "completed_above_limit;t=0", format!("msg {} needs {n} > timeout 0 but completed at #{s}", o.msg), vec![inv.i, s]);
+                        }
+                    }
+                    if o.op == OpK::Call && matches!(o.res, Some(Res::Reply { .. })) {
+                        rep.fail(P, "R2", "caller_ok_on_abandon;t=0", format!("call msg {} needs {n} > timeout 0 but the caller got {:?}", o.msg, o.res), vec![o.b]);
                     }
                 }
             }
